@@ -128,6 +128,6 @@ theorem cmpCran_lex : ∀ ns ms : List Nat, cmpCran (castNums ns) (castNums ms) 
 /-- R's ordering on every canonically rendered version -/
 theorem cran_spec (a b : V) : compareStr .cran (render a) (render b) = .ofOrd (CranSpec.specCmp a b) := by
   show cranFam.compareStr (render a) (render b) = _
-  simp only [Family.compareStr, Family.cmpParsed, cranFam, parseCran_render, CRes.toOutcome, CranSpec.specCmp, cmpCran_lex]
+  simp only [Family.compareStr, Family.cmpParsed, cranFam_parse, cranFam_cmp, parseCran_render, CRes.toOutcome, CranSpec.specCmp, cmpCran_lex]
 
 end Scalibr.Semantic
